@@ -316,12 +316,18 @@ func remoteSeeds(full bool) []string {
 			out = append(out, base+q)
 		}
 	}
+	// surrounding white space (every parser must take the same view of it)
+	for _, base := range []string{"git::https://example.com/repo.git", "https://example.com/foo.tgz//sub", "git::https://example.com/repo.git//a?ref=v1"} {
+		out = append(out, base+" ", " "+base, base+"\t", base+"\n")
+	}
+	out = append(out, "git::https://example.com/repo.git//a ", "git::https://example.com/repo.git// a", "https://example.com/foo.tgz//a /b")
 	// fragments with characters that need escaping
 	for _, f := range []string{"#fr ag", "#fr%20ag", "#é", "#a#b", "#"} {
 		out = append(out, "https://example.com/foo.tgz"+f, "git::https://example.com/repo.git?ref=v1"+f)
 	}
 	// opaque and shorthand forms
-	for _, s := range []string{"git::https:foo", "https:foo.tgz", "git::https:foo//sub", "github.com/o/r", "github.com/o/r.git", "github.com/o/r/sub", "github.com/o/r/sub/dir", "github.com/o/r?ref=x",
+	for _, s := range []string{"git::ssh:git:pw@github.com/o/r.git", "git::ssh:git@github.com/o/r.git", "git::https:user@example.com/r.git//sub", "https:u:p@example.com/foo.tgz", "git::https:example.com/a@b.git",
+		"git::https:foo", "https:foo.tgz", "git::https:foo//sub", "github.com/o/r", "github.com/o/r.git", "github.com/o/r/sub", "github.com/o/r/sub/dir", "github.com/o/r?ref=x",
 		"github.com/o/r//sub", "github.com/o", "gitlab.com/o/r", "gitlab.com/o/r.git", "gitlab.com/o/r/a/b", "gitlab.com/o/r/a", "gitlab.com/o/r.git//sub?ref=v1", "github.com/o/rgit", "github.com/o/r/..", "GITHUB.com/o/r"} {
 		out = append(out, s)
 	}
@@ -476,6 +482,9 @@ func c06Cause(a aval, sig string) string {
 	}
 	if u != nil && u.Fragment != "" && sub != "" {
 		return "sourceaddrs/round-trip/package-url-has-fragment-and-sub-path"
+	}
+	if strings.TrimSpace(sub) != sub {
+		return "sourceaddrs/round-trip/sub-path-begins-or-ends-with-white-space"
 	}
 	if sub != "" && (&url.URL{Path: sub}).EscapedPath() != sub {
 		facts = append(facts, "sub-path-special-char")
@@ -718,6 +727,11 @@ func policyViolations(rs sourceaddrs.RemoteSource) []string {
 	}
 	if u.User != nil {
 		out = append(out, "userinfo-present")
+	}
+	// an authority-less ("opaque") URL keeps whatever stood in front of the first '/' as text:
+	// "ssh:git:pw@github.com/o/r.git" carries a user name and a password all the same
+	if first, _, _ := strings.Cut(u.Opaque, "/"); strings.Contains(first, "@") {
+		out = append(out, "userinfo-in-opaque-url")
 	}
 	q, err := url.ParseQuery(u.RawQuery)
 	if err != nil {
